@@ -416,7 +416,9 @@ def requestTarget (r : ReqHead) : Bytes :=
 def assembleRequestHead (r : ReqHead) : Bytes :=
   r.method ++ [32] ++ requestTarget r ++ [32] ++ r.version ++ crlf ++ assembleFields r.fields ++ crlf
 
-def decDigits (n : Nat) : Bytes := (toString n).toUTF8.toList
+/-- `b"%d" % status` on the domain of status codes the HTTP/1 reader produces (`[1-9]\d\d`, i.e. 100..999): three digits -/
+def decDigits (n : Nat) : Bytes :=
+  [UInt8.ofNat (48 + n / 100 % 10), UInt8.ofNat (48 + n / 10 % 10), UInt8.ofNat (48 + n % 10)]
 
 def assembleResponseHead (r : RespHead) : Bytes :=
   r.version ++ [32] ++ decDigits r.status ++ [32] ++ r.reason ++ crlf ++ assembleFields r.fields ++ crlf
